@@ -12,3 +12,6 @@ repo = core.Repo()
 ref = alpha.build_reference(repo)
 alpha.REF.write_text(json.dumps(ref, indent=0, sort_keys=True) + "\n")
 print(len(ref), "functions with locals recorded")
+sh = alpha.build_shapes(repo)
+alpha.SHAPES.write_text(json.dumps(sh, indent=0, sort_keys=True) + "\n")
+print(len(sh), "function shapes recorded")
